@@ -105,7 +105,7 @@ ReportOuts(ev, v, tn) ==
   /\ LET bad == {r \in Renderings : ~WellFormed(x[r].m)} IN
      IF bad = {} THEN TRUE ELSE MisS(ev, "markers", "verdict", {"C06"}, bad, {}, [r \in bad |-> x[r].m])
   \* congruence with the plain rendering: for regular strings (C06's quantifier)
-  /\ LET bad == IF tn.mk \/ tn.h THEN {} ELSE {r \in Renderings : ~x[r].cong} IN
+  /\ LET bad == IF tn.mk \/ tn.h \/ tn.dv THEN {} ELSE {r \in Renderings : ~x[r].cong} IN
      IF bad = {} THEN TRUE ELSE MisS(ev, "congruence", "verdict", {"C06"}, bad, {}, bad)
   /\ LET bad == {r \in {"rq", "rx"} : ~x[r].bang} IN
      IF bad = {} THEN TRUE ELSE MisS(ev, "refusal", "verdict", {"C06"}, bad, {}, bad)
@@ -185,7 +185,13 @@ ReportStd(ev, v, sl, own) ==
   /\ Chk(badOwn = {}, ev, "std.own", "verdict", {"C14"}, {}, badOwn)
 
 \* ---- constructor steps: recorded vs ideal (= model: constructors have no deviation)
-ReportBuild(ev, new, tn) ==
+\* pool positions of the references held by slots whose recorded value has diverged from
+\* the model through a reported transfer defect (no prediction involves them)
+DivergedRefs(sl, tall, dst) ==
+  UNION {LET off == Len(Concat([k \in 1..(i - 1) |-> AllNodes(sl[k])]))
+         IN (off + 1)..(off + Len(AllNodes(sl[i]))) : i \in {k \in 1..NSlots : k # dst /\ tall[k].dv}}
+
+ReportBuild(ev, new, tn, tall) ==
   LET st == ev.step
       v == new[st.dst]
       o == ev.obs
@@ -212,8 +218,10 @@ ReportBuild(ev, new, tn) ==
              Chk(d = {}, ev, "acc", "verdict", PropsFor({"C19"}, v), [f \in d |-> Acc(v)[f]], [f \in d |-> o.acc[f]])
      /\ Chk(SourceOK(o.acc), ev, "source", "verdict", {"C16"}, o.acc.chainTops, o.acc.source)
      /\ IF tn.h \/ tn.dv THEN TRUE
-        ELSE LET spec == IsSpecVec(v, new, reg) IN
-             Chk(o.is = spec, ev, "is", "verdict", PropsFor({"C08"}, v), spec, o.is)
+        ELSE LET spec == IsSpecVec(v, new, reg)
+                 skip == DivergedRefs(new, tall, st.dst) IN
+             Chk(Len(o.is) = Len(spec) /\ \A j \in 1..Len(spec) : j \in skip \/ o.is[j] = spec[j],
+                 ev, "is", "verdict", PropsFor({"C08"}, v), spec, o.is)
      \* IsAny is the disjunction; Is(nil, r) is r == nil
      \* (also against the references held by the other slots only, in both orders:
      \* there no reference is the value itself)
@@ -230,9 +238,12 @@ ReportBuild(ev, new, tn) ==
 RECURSIVE DiffSites(_, _)
 RECURSIVE DiffSitesSeq(_, _)
 DiffSitesSeq(ps, qs) == IF ps = <<>> THEN {} ELSE DiffSites(ps[1], qs[1]) \cup DiffSitesSeq(Tail(ps), Tail(qs))
+\* (hidden sub-trees are compared where both sides can see the same number of them: an
+\* opaque barrier keeps its hidden error inside the payload)
 DiffSites(p, q) ==
   IF Len(p.kids) # Len(q.kids) \/ p.k # q.k THEN {"shape:" \o p.fam}
-  ELSE LET below == DiffSitesSeq(p.kids, q.kids) IN
+  ELSE LET below == DiffSitesSeq(p.kids, q.kids)
+                    \cup (IF Len(p.hid) = Len(q.hid) THEN DiffSitesSeq(p.hid, q.hid) ELSE {}) IN
        IF below # {} THEN below ELSE IF p.text # q.text THEN {p.fam} ELSE {}
 
 RECURSIVE FamTree(_)
@@ -290,8 +301,11 @@ ReportHop(ev, base, new, tn) ==
      \* process that cannot decode it.  Anything else is "other".
      /\ LET rp == RefPool(base)
             e0 == base[st.src[1]]
-            markOpaque == \E i \in 1..Len(AllNodes(v)) :
-                             AllNodes(v)[i].ty = "opaqueWrapper" /\ AllNodes(v)[i].o.fam = "withMark"
+            \* (at the receiver, or already at the sender: a later process that knows
+            \* withMark honours the mark again, which changes the answers back)
+            OpaqueMarkIn(x) == \E i \in 1..Len(AllNodes(x)) :
+                                  AllNodes(x)[i].ty = "opaqueWrapper" /\ AllNodes(x)[i].o.fam = "withMark"
+            markOpaque == OpaqueMarkIn(v) \/ OpaqueMarkIn(e0)
             Cause(j) == IF j = 0 \/ j > Len(rp) \/ o.is[j] # B2S(IsSpec(v, rp[j], reg)) THEN "other"
                         ELSE IF OnlyViaMethod(e0, rp[j], reg) THEN "ismethod"
                         ELSE IF markOpaque THEN "markopaque" ELSE "other"
@@ -304,7 +318,9 @@ ReportHop(ev, base, new, tn) ==
      /\ LET ex == IdExempt(base, st.dst, base[st.src[1]])
             refs == VisNodes(v)
             others == [j \in 1..(NSlots - 1) |-> IF j < st.dst THEN j ELSE j + 1]
-            markOpaque == \E i \in 1..Len(refs) : refs[i].ty = "opaqueWrapper" /\ refs[i].o.fam = "withMark"
+            refs0 == VisNodes(base[st.src[1]])
+            markOpaque == \/ \E i \in 1..Len(refs) : refs[i].ty = "opaqueWrapper" /\ refs[i].o.fam = "withMark"
+                          \/ \E i \in 1..Len(refs0) : refs0[i].ty = "opaqueWrapper" /\ refs0[i].o.fam = "withMark"
             okShape == /\ Len(p.isrev) = Len(o.isrev)
                        /\ \A j \in 1..Len(p.isrev) : Len(p.isrev[j]) = Len(o.isrev[j])
             bad == IF ~okShape THEN {<<0, 0>>}
@@ -323,8 +339,12 @@ ReportHop(ev, base, new, tn) ==
      \* (exactly between knowing processes from the second hop on; otherwise up to the
      \* reportable payload of barrier layers, which embeds a rendering of the hidden
      \* error as the encoding process sees it)
-     /\ Chk(IF o.hop.n >= 2 /\ knowing THEN o.hop.same ELSE o.hop.sameModBarrier, ev, "hop.drift", "verdict",
-            {PT}, TRUE, FALSE)
+     \* (where this hop changes the text of a layer - reported as hop.skel with the sites -
+     \* a knowing layer above it re-derives its own message from the changed text: the
+     \* drift is reported with the same sites)
+     /\ LET ok == IF o.hop.n >= 2 /\ knowing THEN o.hop.same ELSE o.hop.sameModBarrier
+            sites == DiffSites(p.tree, o.tree) IN
+        IF ok \/ tn.dv THEN TRUE ELSE MisS(ev, "hop.drift", "verdict", {PT}, sites, TRUE, FALSE)
      \* safe details per layer (C11 leaves out barrier / secondary layers; an
      \* unknowing process must keep all of them as received)
      /\ LET n == Len(p.safe)
@@ -443,7 +463,7 @@ TNext ==
      LET new == [base EXCEPT ![st.dst] = Build(st, base, reg)]
          tn == TaintOf(st, base, tbase, new[st.dst])
          \* a hop whose recorded text diverges (reported as hop.skel) suspends predictions
-         diverged == /\ st.op = "Hop" /\ ~ev.obs.nil /\ ~ev.pre.nil /\ ~tn.h
+         diverged == /\ st.op = "Hop" /\ ~ev.obs.nil /\ ~ev.pre.nil
                      /\ DiffSites(ev.pre.tree, ev.obs.tree) # {}
      IN /\ Enabled(st, base)
         /\ slots' = new
@@ -454,7 +474,7 @@ TNext ==
            ELSE IF st.op = "Grpc" THEN ReportGrpc(ev, base, new)
            ELSE IF st.op \in {"DecodeFault", "DecodeFuzz"} THEN ReportFault(ev)
            ELSE IF st.op = "StackCall" THEN ReportStack(ev)
-           ELSE ReportBuild(ev, new, tn)
+           ELSE ReportBuild(ev, new, tn, tbase)
   /\ l' = l + 1
   /\ UNCHANGED <<net, reg>>
 
